@@ -119,6 +119,21 @@ def _charmap_of(stage):
         return ({}, {"="})  # '=' only occurs at the end of base64 text: stripping it there deletes all of it
     if n == ".translate" and len(stage.args) == 1:
         t = stage.args[0]
+        if t.kind == "call" and t.a in ("str.maketrans", "bytes.maketrans") and len(t.b) == 1 and t.b[0].kind == "const" and isinstance(t.b[0].a, dict):
+            m, dele = {}, set()
+            for k, v in t.b[0].a.items():
+                k = chr(k) if isinstance(k, int) else k
+                if not isinstance(k, str) or len(k) != 1:
+                    return None
+                if v is None or v == "":
+                    dele.add(k)
+                elif isinstance(v, str) and len(v) == 1:
+                    m[k] = v
+                elif isinstance(v, int):
+                    m[k] = chr(v)
+                else:
+                    return None
+            return (m, dele)
         if t.kind == "call" and t.a in ("str.maketrans", "bytes.maketrans") and 2 <= len(t.b) <= 3:
             x, y = _cstr(t.b[0]), _cstr(t.b[1])
             z = _cstr(t.b[2]) if len(t.b) == 3 else ""
